@@ -32,7 +32,7 @@ def gen_probe(h, rng, k, force_mode=None):
     spec['once'] = False
     spec['retention'] = 0
     members = drv.cell.members()
-    mode = rng.choice(['free', 'free', 'free-1', 'free+1', 'small', 'clone', 'clone', 'clone-min', 'clone-min', 'clone-traitless'])
+    mode = rng.choice(['free', 'free', 'free-1', 'free+1', 'small', 'clone', 'clone', 'clone-min', 'clone-min', 'clone-traitless', 'clone-relevel'])
     mode = force_mode or mode
     cands = [s for s in sorted(H.servers) if H.servers[s]['label'] == label]
     if mode.startswith('free') and cands:
@@ -61,6 +61,28 @@ def gen_probe(h, rng, k, force_mode=None):
                 spec['demand'] = [x + rng.choice([0, 0, 1]) for x in src['demand']]
             if rng.random() < 0.5:
                 spec['traits'] = 0
+    elif mode == 'clone-relevel':
+        # a later instance of the application of a pending instance (same affinity name, lease, traits) whose manifest
+        # declares its limits differently: on other levels, or on fewer levels - what blocks the pending one need not
+        # block this one
+        pend = [n for n, a in sorted(drv.cell.apps.items()) if a.server is None and H.apps[n]['alloc'][0] == label and
+                H.apps[n]['limits'] and not H.apps[n]['blacklisted']]
+        if pend:
+            src = H.apps[rng.choice(pend)]
+            lim = dict(src['limits'])
+            levels = ['server', 'rack', 'pod', 'cell']
+            how = rng.choice(['other-levels', 'fewer-levels', 'fewer-levels'])
+            if how == 'fewer-levels' and len(lim) > 1:
+                del lim[rng.choice(sorted(lim))]
+            else:
+                how = 'other-levels'
+                vals = list(lim.values())
+                lim = dict(zip(rng.sample(levels, len(vals)), vals))
+            if lim != src['limits']:
+                spec.update(affinity=src['affinity'], limits=lim, lease=src['lease'], traits=src['traits'],
+                            demand=[x + rng.choice([0, 0, 1]) for x in src['demand']])
+                spec['relevel'] = how
+                drv.mon.count('probe_same_affinity_limits_on_' + how.replace('-', '_'))
     elif mode == 'clone-traitless':
         # the twin of a pending instance that needs traits (its own or its allocation's), without the traits: the
         # failure recorded for the instance that needs them says nothing about the twin
